@@ -37,6 +37,10 @@ const (
 	opUpdQuery     = "update_query"     // PUT: equivalent query text
 	opDeactivate   = "deactivate"       // PUT is_active=false
 	opActivate     = "activate"         // PUT is_active=true
+	// ExecuteCQ while the UPDATE of last_processed_time is made to fail (SQLite trigger
+	// RAISE(ABORT) installed for this one execution): the history row and the cursor
+	// advance must come together or not at all
+	opSchedBookFault = "sched_bookkeeping_fault"
 )
 
 // manual_range variants (resolved against the state observed at run time).
@@ -104,6 +108,9 @@ func genHistory(r *rand.Rand, idx int) history {
 			st.Op, st.Note = opManualRange, pick(r, []string{mrFrac, mrBackfill})
 		case x < 46:
 			st.Op = opSched
+			if idx%4 == 3 && r.IntN(6) == 0 { // only every fourth history may carry the fault
+				st.Op = opSchedBookFault
+			}
 		case x < 54:
 			st.Op = opManual
 		case x < 62:
@@ -145,6 +152,9 @@ func genHistory(r *rand.Rand, idx int) history {
 		}
 		h.Steps = append(h.Steps, st)
 		// a fault is always followed by at least one scheduled attempt under it
+		if st.Op == opSchedBookFault {
+			h.Steps = append(h.Steps, step{Op: opSched, AdvanceNS: pick(r, []int64{1e9, 10e9, int64(iv), 3600e9})})
+		}
 		if st.Op == opFailSrc || st.Op == opFailDst || st.Op == opRestartNoBuf || st.Op == opDeactivate {
 			h.Steps = append(h.Steps, step{Op: opSched, AdvanceNS: pick(r, []int64{1e9, 10e9, int64(iv), 3600e9})})
 			if r.IntN(3) == 0 {
